@@ -346,7 +346,7 @@ func wsCases(r *mon.Run, emit func(textCase)) {
 }
 
 // runTexts checks every text under every delivery mode.
-func runTexts(r *mon.Run, c *checker, cases []textCase, table string, sample bool) {
+func runTexts(r *mon.Run, c *checker, cases []textCase, table string) {
 	const block = 512
 	nb := (len(cases) + block - 1) / block
 	mon.Par(nb, func(bi int) {
@@ -363,12 +363,13 @@ func runTexts(r *mon.Run, c *checker, cases []textCase, table string, sample boo
 			for mode := 0; mode < nDelivery; mode++ {
 				v := c.check(&s, st, tc.text, mode, table, origin)
 				r.Eval(1)
-				if sample && mode == 0 && v.key == "" {
-					r.SampleN(table+":"+v.class, 1, map[string]any{"side": "decode", "from": tc.origin, "text": quote(tc.text), "result": v.class})
+				if mode == 0 && v.key == "" {
+					c.sample(table, sampleBudget[table], v.class, map[string]any{"from": tc.origin, "text": quote(tc.text), "result": v.class})
 				}
 			}
 		}
 		c.merge(st)
 	})
 	r.Count(table+"_texts", int64(len(cases)))
+	r.Count(table+"_executions", int64(len(cases)*nDelivery))
 }
